@@ -7,6 +7,20 @@ TRUST = ("trusted base: go/types + go/ssa (x/tools v0.50.0), goyacc v0.29.0's LA
          "interface calls that leave the module (Entry, plugins) are opaque")
 
 CHECKS = {
+    "C08": dict(
+        cat="other",
+        text=("Thin, and stated as such: decides the constants and dispatch that RFC 6020 6.1.3 decoding rests on — the escape table values, the shared tab width of 8 used by both the quote-column computation and the indentation stripper, that the quote column is counted per character and not from byte lengths, that substitution/stripping is applied iff the closing quote is a double quote and unquoted/single-quoted text is verbatim, that pieces are joined piece + rest and a continuation needs '+' then a quote, that comment scanners are entered only between tokens, and the flag discipline of the escape-substitution loop (the 'previous backslash pair' flag is false after every non-empty piece). The arithmetic over concrete layouts is not decided."),
+        ref="DESIGN.md §4 C08",
+        technique="constant/table extraction and type-resolved AST shape rules (dispatch conditions, who-references the comment scanners, unit of the column count, boolean flag discipline)",
+        note="Not decided: the decoded text for a given source form and layout (runtime string computation). " + TRUST,
+    ),
+    "C10": dict(
+        cat="other",
+        text=("Thin, and stated as such: decides the structural channel from tokens to the tree — each statement is appended to its parent's child list exactly once in loop (source) order and handed unchanged to the node constructor; node.children has exactly the constructor and the documented tree-editing methods as writers; keyword text and position of a node are the keyword token's; raw tokens (separators included) are read only by the *NonSpace helpers and comment text is discarded, never emitted; a comment scanner steps over its opener before searching the terminator; the line/column computation treats a line break at byte 0 as found. Equality of trees across re-layouts is not decided."),
+        ref="DESIGN.md §4 C10",
+        technique="type-resolved AST rules: who-writes / who-calls sets, value provenance of node fields, statement-order rules",
+        note="Not decided: tree equality over all trivia insertions and equivalent quotings (a relation over runtime inputs). " + TRUST,
+    ),
     "C07": dict(
         cat="other",
         text=("Decides the structural necessary conditions of 'parsing is total and leaves nothing running': every character loop of the YANG lexer leaves at end of input (the loop predicate is evaluated exactly, as an interval set, at the eof sentinel) and consumes a rune per iteration; the single goroutine the parser starts closes its channel when its state machine ends and the parser's recover handler drains that channel before dropping the lexer; Parse defers the handler; every explicit panic reachable from Parse carries an error value (the handler asserts e.(error)) and is located (name, line, column, or the statement's ErrorContext); every index/slice expression and unchecked type assertion in the static call cone of Parse and of the lexer goroutine (state functions followed as values) is discharged by a guard that must still be present or by a reviewed entry; the success return follows parse(), which sets Root from the node stmt() built."),
